@@ -443,6 +443,9 @@ type LateDialPlan struct {
 	CallLimitUs   int64   `json:"call_limit_us"`
 	CloseAtUs     int64   `json:"close_at_us"`
 	SecondClose   bool    `json:"second_close,omitempty"`
+	// HonourCtx: the injected dialer gives up the moment its context is
+	// cancelled (as net.Dialer does) instead of ignoring it.
+	HonourCtx bool `json:"honour_ctx,omitempty"`
 }
 
 // CodecPlan: a history of messages for the wire codec (C02 arm codec).
